@@ -313,6 +313,18 @@ func (ir *ifdReader) ParseRationalU(t Tag) [2]uint32 {
 // ParseUint32 parses a Uint32 value.
 // Embedded tag with value length 4 bytes.
 func (ir *ifdReader) ParseUint32(t Tag) uint32 {
+	if !t.IsEmbedded() && (t.IsType(tag.TypeLong) || t.IsType(tag.TypeShort)) {
+		// several values stored out of line (e.g. ISOSpeedRatings with three SHORTs): the slot
+		// holds their offset, not a value; the first value is reported.
+		buf, err := ir.readTagValue()
+		if err != nil {
+			return 0
+		}
+		if t.IsType(tag.TypeShort) {
+			return uint32(t.ByteOrder.Uint16(buf))
+		}
+		return t.ByteOrder.Uint32(buf)
+	}
 	switch t.Type {
 	case tag.TypeLong:
 		return uint32(t.ValueOffset)
